@@ -54,17 +54,51 @@ S4 == {Struct("S", <<Field("P", "b", {}, Prim("int8")), Embed("Emb", "value", Em
        Struct("S", <<Field("X", "", {}, Prim("int8")), Field("Q", "X", {"omitempty"}, Prim("string"))>>), \* untagged X vs tagged "X": tagged wins
        Struct("S", <<[Embed("Emb", "value", Emb) EXCEPT !.tag = "emb"], Field("Z", "", {}, Prim("bool"))>>)}   \* tagged embedded = a named field
 
+
+\* ------------------------------------------------------------ O: ForOptions (C16)
+Named(nm, t) == [k |-> "named", name |-> nm, e |-> t]
+RecT == [k |-> "rec"]
+Callback == Named("Callback", Bad("func"))
+Index == Named("Index", Bad("mapint"))
+OBad == {Bad(w) : w \in {"chan", "func", "complex", "mapint"}}
+        \cup {Slice(Bad("func")), MapOf(Bad("chan")), Ptr(Bad("complex")), Array(Bad("func"), 2), Slice(Slice(Bad("mapint")))}
+        \cup {Struct("S", <<Field("F", "", {}, b), Field("G", "", {}, Prim("int8"))>>) : b \in {Bad("func"), Slice(Bad("chan")), MapOf(Bad("func")), Ptr(Bad("complex"))}}
+        \cup {Struct("S", <<Field("F", "", {}, Callback), Field("G", "", {}, Callback), Field("H", "", {}, Prim("int8"))>>),
+              Struct("S", <<Field("F", "", {}, Callback), Field("G", "", {}, Slice(Callback))>>),
+              Struct("S", <<Field("F", "", {}, MapOf(Index)), Field("G", "", {}, Index), Field("H", "h", {"omitempty"}, Prim("string"))>>),
+              Struct("S", <<Field("F", "", {}, Slice(Callback)), Field("G", "", {}, Ptr(Callback))>>),
+              Slice(Struct("S", <<Field("F", "", {}, Callback), Field("G", "", {}, Callback)>>))}
+ORec == {Struct("Rec", <<Field("Next", "", {}, Ptr(RecT)), Field("V", "", {}, Prim("int8"))>>),
+         Struct("Rec", <<Field("Kids", "", {}, Slice(RecT))>>),
+         Struct("Rec", <<Field("M", "", {}, MapOf(RecT)), Field("V", "", {}, Prim("string"))>>),
+         Struct("Rec", <<Field("W", "", {}, Struct("Wrap", <<Field("R", "", {}, Ptr(RecT))>>))>>),
+         Slice(Struct("Rec", <<Field("Next", "", {}, Ptr(RecT))>>))}
+\* a named type occurring several times is NOT a cycle
+OMany == {Struct("S", <<Field("A", "", {}, Inner), Field("B", "", {}, Inner), Field("C", "", {}, Slice(Inner)), Field("D", "", {}, Ptr(Inner))>>),
+          Struct("S", <<Field("A", "", {}, MapOf(Inner)), Field("B", "", {}, Array(Inner, 2))>>)}
+OTS == {Inner, Ptr(Inner), Slice(Inner), MapOf(Ptr(Inner)), Struct("S", <<Field("A", "", {}, Inner), Field("B", "b", {"omitempty"}, Ptr(Inner))>>),
+        Struct("S", <<Embed("Emb", "value", Emb), Field("Z", "", {}, Prim("bool"))>>),
+        Struct("S", <<Field("Z", "", {}, Prim("bool")), Embed("Emb", "ptr", Emb)>>)}
+TSConfs == [none |-> EmptyFcn,
+            innerTyped |-> [Inner |-> [type |-> "object", description |-> "custom"]],
+            innerUntyped |-> [Inner |-> [description |-> "custom"]],
+            innerTypes |-> [Inner |-> [types |-> <<"object", "string">>]],
+            embOverride |-> [Emb |-> [type |-> "object", properties |-> [q |-> [type |-> "string"], p |-> [type |-> "integer"]]]]]
+OCases == {[t |-> t, ign |-> ign, tsn |-> "none"] : t \in UNION {OBad, ORec, OMany}, ign \in BOOLEAN}
+          \cup {[t |-> t, ign |-> FALSE, tsn |-> c] : t \in OTS, c \in {"innerTyped", "innerUntyped", "innerTypes", "embOverride"}}
+
 Types(z) ==
   CASE Family = "T" -> IF K >= 2 THEN UNION {T1, T2, T3} ELSE UNION {T1, T2}
     [] Family = "S" -> IF K >= 2 THEN UNION {S1, S2, S3} ELSE UNION {S1, S3}
     [] Family = "X" -> S4
+    [] Family = "O" -> OCases
 
 Init == cs \in Types(0) /\ phase = "new"
 Next == phase = "new" /\ phase' = "done" /\ cs' = cs
 Spec == Init /\ [][Next]_vars
 
 Single(s) == [docs |-> <<[uri |-> EmptyURI, s |-> s]>>]
-Vals == SetToSeq(Values(cs, 0))
+Vals == IF Family = "O" THEN <<>> ELSE SetToSeq(Values(cs, 0))
 Accepts(s, d) == Ev(Single(Strip(s)), "2020", Addr(1, <<>>), d, <<>>).ok
 
 \* Known findings (kept as named deviations, see known_findings.json):
@@ -77,7 +111,7 @@ HasBigInt(t) ==
     [] t.k \in {"ptr", "slice", "array", "map"} -> HasBigInt(t.e)
     [] t.k = "struct" -> \E i \in DOMAIN t.fields : HasBigInt(t.fields[i].t)
     [] OTHER -> FALSE
-Exempt == ~CheckKnown /\ (HasBigInt(cs) \/ Family = "X")
+Exempt == Family = "O" \/ (~CheckKnown /\ (HasBigInt(cs) \/ Family = "X"))
 
 \* C04 on the model
 Sound == (phase = "done" /\ ~Exempt) => \A i \in DOMAIN Vals : Accepts(InferCode(cs), Enc(cs, Vals[i]))
@@ -85,6 +119,12 @@ Sound == (phase = "done" /\ ~Exempt) => \A i \in DOMAIN Vals : Accepts(InferCode
 SpecEq == (phase = "done" /\ ~Exempt) => InferCode(cs) = InferSpec(cs)
 
 Emit == phase = "done" =>
+  IF Family = "O" THEN
+    LET r == InferOpt(cs.t, cs.ign, TSConfs[cs.tsn])
+    IN PrintT(<<"CASE", ToJson([t |-> cs.t, fam |-> "O", ign |-> cs.ign, tsn |-> cs.tsn, ts |-> TSConfs[cs.tsn],
+                                res |-> IF "err" \in DOMAIN r THEN "err" ELSE IF "drop" \in DOMAIN r THEN "drop" ELSE "ok",
+                                spec |-> IF IsOk(r) THEN r.s ELSE EmptyFcn])>>)
+  ELSE
   PrintT(<<"CASE", ToJson([t |-> cs, fam |-> Family, spec |-> InferSpec(cs), code |-> InferCode(cs),
                            vals |-> Vals, enc |-> [i \in DOMAIN Vals |-> Enc(cs, Vals[i])],
                            ok |-> [i \in DOMAIN Vals |-> Accepts(InferSpec(cs), Enc(cs, Vals[i]))]])>>)
